@@ -1200,8 +1200,12 @@ static void fam_c15_arenas(G& g, Plan& p) {
   }
   for (int t = 1; t < nt; t++) P0.ops.push_back(mk(OP_join, t));
   // adoption by the main thread's forced collect, then allocations from main's default heap in the same size classes
-  P0.ops.push_back(mk(OP_collect, -1, 1));
-  for (int i = 0; i < 40; i++) P0.ops.push_back(mk(OP_malloc, 100 + (i % 50), gen_size(g, mix)));
+  if (g.chance(0.5)) P0.ops.push_back(mk(OP_collect, -1, 1));
+  if (g.chance(0.6)) {   // an unbound heap asks for fresh segments again and again: abandoned segments get visited repeatedly
+    int nb = 8 + (int)g.below(10);
+    for (int i = 0; i < nb; i++) { P0.ops.push_back(mk(OP_free, 140 + (i % 8))); P0.ops.push_back(mk(OP_malloc, 140 + (i % 8), 9 * MiB + g.below(6 * MiB))); }
+  }
+  for (int i = 0; i < 40; i++) P0.ops.push_back(mk(OP_malloc, 100 + (i % 40), gen_size(g, mix)));
   for (int i = 0; i < 10; i++) P0.ops.push_back(mk(OP_check_owner, (int)g.below(150)));
   P0.ops.push_back(mk(OP_verify_all));
 }
